@@ -165,6 +165,8 @@ class Shared:
         self.vec = Shaped[N, "n"]
         self.tree = PyTree[Float[N, "a"], "T"]
         self.q = PyTree[Shaped[N, "?k"], "T"]
+        self.sym = Float[N, "n+1"]  # binds nothing but READS the bindings: same object, different contexts
+        self.symarg = Float[N, "{k}"]
 
     def fresh(self):
         return Shared()
@@ -175,6 +177,17 @@ class Shared:
         for name in ("img", "vec", "tree", "q"):
             ann = getattr(self, name)
             out.append(tuple(ctx(lambda: real.check(x, ann)) for x in vals))
+        from jaxtyping import Shaped, jaxtyped
+
+        def under(n, size):
+            return ctx(lambda: (real.check(A(n), Shaped[N, "n"]), real.check(A(size), self.sym))[1])
+
+        @jaxtyped(typechecker=None)
+        def witharg(k, size):
+            return real.check(A(size), self.symarg)
+
+        out.append((under(2, 3), under(4, 3), under(4, 5), under(2, 5), real.check(A(3), self.sym), ctx(lambda: real.check(A(3), self.sym))))
+        out.append((witharg(3, 3), witharg(4, 3), witharg(4, 4), witharg(3, 4)))
         return out
 
 
@@ -193,6 +206,17 @@ def catalogue(sh):
     ops["raise_array_symbolic"] = lambda: ctx(lambda: real.check(A(3, 4), Float[N, "c zz+1"]))
     ops["raise_question_toplevel"] = lambda: real.check(A(3), Shaped[N, "?k"])
     ops["pass_tree"] = lambda: ctx(lambda: isinstance([A(2), (A(2),)], sh.tree))
+    ops["symbolic_shared_pass"] = lambda: ctx(lambda: (isinstance(A(2), Shaped[N, "n"]), isinstance(A(3), sh.sym)))
+    ops["symbolic_shared_fail"] = lambda: ctx(lambda: (isinstance(A(4), Shaped[N, "n"]), isinstance(A(3), sh.sym)))
+
+    def symbolic_arg_shared():
+        @jaxtyped(typechecker=None)
+        def g(k):
+            return isinstance(A(3), sh.symarg)
+
+        return g(3), g(5)
+
+    ops["symbolic_arg_shared"] = symbolic_arg_shared
     ops["fail_tree_2nd_leaf"] = lambda: ctx(lambda: isinstance([A(2), (A(3),)], sh.tree))
     ops["q_tree"] = lambda: ctx(lambda: (isinstance([A(2), A(3)], sh.q), isinstance([A(2), A(4)], sh.q)))
     ops["raise_tree_unbound_struct"] = lambda: ctx(lambda: real.check([A(2)], PyTree[Float[N, "a"], "S T"]))
@@ -465,8 +489,13 @@ def check_after(rec, base, case, hist_names, sh, mech_prefix):
     if sh is not None:
         rec.count("shared_annotation_probes")
         v1, v2 = sh.vectors(), sh.fresh().vectors()
+        # the two symbolic annotations have answers that are known outright (n+1 / {k} under the given bindings)
+        want_sym = (("ok", "no", "ok", "no", "annot", "annot"), ("ok", "no", "ok", "no"))
+        if tuple(v1[4:6]) != want_sym:
+            rec.violation("annotation-mutated", case, f"shared symbolic annotations re-checked under different bindings answer {v1[4:6]}, expected {want_sym}", mechanism=f"{mech_prefix}-symbolic-annotation-remembers-earlier-verdict")
+            ok = False
         if v1 != v2:
-            names4 = ("img", "vec", "tree", "q")
+            names4 = ("img", "vec", "tree", "q", "sym", "symarg")
             differ = [nm for nm, a, b in zip(names4, v1, v2) if a != b]
             which = names4.index(differ[0])
             mech = f"{mech_prefix}-shared-annotation-{'+'.join(differ)}-changed"
